@@ -101,9 +101,20 @@ def worker(wi):
         mut = subprocess.run([MUTGEN, '-apply', str(idx), '/repo/' + f], stdout=subprocess.PIPE).stdout
         try:
             open(repo + '/' + f, 'wb').write(mut)
-            rc, o = run(['go', 'build', './...'], repo, 300)
-            if rc != 0:
+            # first the packages that can see the mutated file (the storage tree is self-contained and
+            # slow to link), then - only for mutants that got through - the whole suite as confirmation
+            if f.startswith('storage/'):
+                near = ['./storage/...', './analysis/...', './cmd/benchsave/...']
+            else:
+                near = ['./benchfmt/...', './benchmath/...', './benchproc/...', './benchseries/...', './benchstat/...', './benchunit/...',
+                        './cmd/benchstat/...', './cmd/benchseries/...', './cmd/benchfilter/...', './internal/...']
+                if f.startswith('benchstat/') or f.startswith('internal/stats/'):
+                    near.append('./analysis/...')
+            rc, o = run(['go', 'test', '-count=1', '-vet=off', '-timeout', '90s'] + near, repo, 400)
+            if rc != 0 and '[build failed]' in o and '--- FAIL' not in o and 'panic:' not in o:
                 rec['status'] = 'nocompile'
+            elif rc != 0:
+                rec['status'] = 'suite'
             else:
                 rc, o = run(['go', 'test', '-count=1', '-vet=off', '-timeout', '90s', './...'], repo, 400)
                 if rc != 0:
